@@ -13,7 +13,9 @@
                  one with the largest n, or errMultiMismatch on a tie — so it is Dyn only if that one was
      Var         passes it up unchanged (its own RetProc is not called)
    The rewriters themselves are a small finite family (what the harness can install through tpl.New):
-   identity, wrap, reject a token literal with a Dyn error, reject it with a non-Dyn error. *)
+   identity, wrap, reject a token literal with a Dyn error, reject it with a non-Dyn error, and "boom"
+   (always a Dyn error) — the last one makes *R / +R spin when R fails at its left operand without
+   consuming (known finding), and is excluded by [rp_safe] in the termination theorem. *)
 From Coq Require Import List NArith ZArith Bool Arith.
 Import ListNotations.
 From V Require Import Base.Prelude Base.TplRes Gen.Tokens Model.Tpl.
@@ -25,7 +27,8 @@ Inductive rp :=
 | RpId                      (* func(self any) any { return self } *)
 | RpWrap                    (* func(self any) any { return []any{"W", self} } *)
 | RpRejDyn (lit : str)      (* panics with a string when self is a token spelled lit *)
-| RpRejErr (lit : str).     (* panics with &matcher.Error{Dyn: false} when self is a token spelled lit *)
+| RpRejErr (lit : str)      (* panics with &matcher.Error{Dyn: false} when self is a token spelled lit *)
+| RpBoom.                   (* always panics with a string: a Dyn error even when the rule matched NO token *)
 
 Definition rejects (toks : list tokn) (lit : str) (x : res) : bool :=
   match x with
@@ -39,7 +42,11 @@ Definition rp_apply (toks : list tokn) (p : rp) (x : res) : res * ek :=
   | RpWrap => (RList [RVal 0; x], EOk)
   | RpRejDyn l => if rejects toks l x then (x, EDyn) else (x, EOk)
   | RpRejErr l => if rejects toks l x then (x, EErr) else (x, EOk)
+  | RpBoom => (x, EDyn)
   end.
+
+(* rewriters that raise an error only for a result that is a token (hence only after consuming input) *)
+Definition rp_safe (p : rp) : bool := match p with RpBoom => false | _ => true end.
 
 Definition is_eerr (k : ek) : bool := match k with EErr => true | _ => false end.
 Definition join (acc k : ek) : ek := match k with EDyn => EDyn | _ => acc end.   (* err = err1 when isDyn(err1) *)
@@ -187,6 +194,9 @@ End WithEnv.
 
 Definition match_doc_rp (env : list (option (m * option rp))) (toks : list tokn) (fuel : nat) (doc : nat) : outp :=
   runp env toks fuel (PM (MVar doc) 0).
+
+Definition envp_safe (envp : list (option (m * option rp))) : bool :=
+  forallb (fun o => match o with Some (_, Some p) => rp_safe p | _ => true end) envp.
 
 (* attach the rewriters (by rule index) to a compiled environment *)
 Fixpoint attach (env : list (option m)) (rps : list (option rp)) : list (option (m * option rp)) :=
